@@ -86,7 +86,7 @@ def op_templates():
     reg("truncate_pow", [(3,)], lambda g, x, st: g.truncate(x[0], 1 << (st_bits(st) - 2)), only="wide")
     reg("truncate_big", [(3,)], lambda g, x, st: g.truncate(x[0], (1 << 65) + 1), only="w128")
     reg("gather", [(3, 2)], lambda g, x, st: g.gather(x[0], g.const(A((2,), "u64"), ["2", "0"]), 0))
-    reg("gather_ax1", [(2, 3)], lambda g, x, st: g.gather(x[0], g.const(A((2, 2), "u64"), ["2", "0", "1", "1"]), 1))
+    reg("gather_ax1", [(2, 3)], lambda g, x, st: g.gather(x[0], g.const(A((2,), "u64"), ["2", "0"]), 1))
     reg("apply_perm", [(3, 2)], lambda g, x, st: g.apply_permutation(x[0], g.const(A((3,), "u64"), ["2", "0", "1"])))
     reg("apply_perm_inv", [(3,)], lambda g, x, st: g.apply_permutation(x[0], g.const(A((3,), "u64"), ["2", "0", "1"]), True))
     reg("sort_payload", [(3, 2), (3,)], lambda g, x, st: g.sort(g.ntuple([("k", g.a2b(g.const(A((3,), "u8"), ["2", "1", "2"]))), ("v", x[0]), ("w", x[1])]), "k"))
